@@ -841,8 +841,13 @@ def validate_traces(ctx, paths, allbounds, fixed, corrupt_rng=None, pool=None):
 
     def one(job):
         gi, fid, conc, items, mod, data = job
-        return job, ctx.tlc(mod, cfg=mod + ".cfg", data=data, timeout=1500, workers=1, dfs=True, heap="2g", extra=["-noGenerateSpecTE"],
-                            label="Trace_RacConc %s conc=%d (%d traces)" % (fid, conc, len(items)))
+        for budget in (1500, 6000):      # (a loaded machine: one more try with four times the budget before giving up)
+            try:
+                return job, ctx.tlc(mod, cfg=mod + ".cfg", data=data, timeout=budget, workers=1, dfs=True, heap="2g", extra=["-noGenerateSpecTE"],
+                                    label="Trace_RacConc %s conc=%d (%d traces)" % (fid, conc, len(items)))
+            except ToolingError as e:
+                if "timeout" not in str(e) or budget == 6000:
+                    raise
 
     results = list(pool.map(one, jobs)) if pool else [one(j) for j in jobs]
     accepted, rejected = 0, []
